@@ -47,6 +47,9 @@ def gen_world(rng, fmt=None, apdep=None, n_models=(1, 8), n_ap=(1, 5), n_wav=(5,
     w['n_par'] = rng.randint(*n_par)
     w['cube_invalid_seed'] = rng.randrange(1 << 30) if rng.random() < 0.25 else None
     w['par_name_seed'] = rng.randrange(1 << 30) if rng.random() < 0.3 else None
+    w['conf_style'] = rng.choice(['plain', 'plain', 'caps', 'upper', 'letter', 'Letter'])
+    w['ext_wav_unit'] = rng.choice(['micron', 'micron', 'Angstrom', 'nm', 'cm', 'm'])
+    w['ext_chi_unit'] = rng.choice(['cm2 / g', 'cm2 / g', 'm2 / kg'])
     w['ap_order'] = rng.choice(['asc', 'asc', 'desc', 'shuffled'])          # order of the aperture axis in the files
     w['par_dtypes'] = [rng.choice(['D', 'D', 'D', 'E', 'E', 'K']) for _ in range(w['n_par'])]
     w['perm_seed'] = rng.randrange(1 << 30)
@@ -269,8 +272,11 @@ class World(object):
         from astropy import units as u
         from sedfitter.extinction import Extinction
         e = Extinction()
-        e.wav = self.ext_wav.copy() * u.micron
-        e.chi = self.ext_chi.copy() * u.cm ** 2 / u.g
+        # the law may be tabulated in any length unit / any area-per-mass unit (Extinction.from_file has both as options)
+        wu = u.Unit(self.spec.get('ext_wav_unit', 'micron'))
+        cu = u.Unit(self.spec.get('ext_chi_unit', 'cm2 / g'))
+        e.wav = (self.ext_wav.copy() * u.micron).to(wu)
+        e.chi = (self.ext_chi.copy() * u.cm ** 2 / u.g).to(cu)
         return e
 
     # -- disk -----------------------------------------------------------------------------------
@@ -322,7 +328,7 @@ class World(object):
             write_cube_file(os.path.join(d, 'flux.fits'), self.names, w, aps_file, v, e, dtype=self.dtype,
                             unit=spec.get('flux_unit') if spec.get('flux_unit') in ('Jy', 'MJY', 'MJy', 'uJy') else 'mJy', valid=valid)
             self.write_params(d, np.arange(self.n_models), gz=gz)
-        write_conf(d, self.apdep, fmt, spec['logd_step'], spec['subdir'] if fmt == 1 else 0)
+        write_conf(d, self.apdep, fmt, spec['logd_step'], spec['subdir'] if fmt == 1 else 0, style=spec.get('conf_style', 'plain'))
         return d
 
     def write_params(self, d, perm, gz=False):
@@ -430,12 +436,24 @@ def write_params(path, names, cols, formats=None):
     fits.HDUList([h0, fits.BinTableHDU.from_columns(cs)]).writeto(path, overwrite=True)
 
 
-def write_conf(d, apdep, version, logd_step=0.02, length_subdir=0):
+CONF_STYLES = {'plain': ('yes', 'no', '%s = %s\n'), 'caps': ('Yes', 'No', '%s = %s\n'), 'upper': ('YES', 'NO', '%s=%s\n'),
+               'letter': ('y', 'n', '%s = %s\n'), 'Letter': ('Y', 'N', '%s   =   %s  \n')}
+
+
+def write_conf(d, apdep, version, logd_step=0.02, length_subdir=0, style='plain'):
+    """models.conf; `style` varies what the reader accepts anyway: the spelling of yes/no, blanks around '=', comment
+    and blank lines, the order of the keys"""
+    yes, no, fm = CONF_STYLES[style]
+    items = [('name', 'sim'), ('length_subdir', '%d' % length_subdir), ('aperture_dependent', yes if apdep else no), ('logd_step', '%r' % logd_step)]
+    if version == 2:
+        items.append(('version', '2'))
+    if style in ('upper', 'Letter'):
+        items = items[::-1]
     with open(os.path.join(d, 'models.conf'), 'w') as f:
-        f.write("name = sim\nlength_subdir = %d\naperture_dependent = %s\nlogd_step = %r\n"
-                % (length_subdir, 'yes' if apdep else 'no', logd_step))
-        if version == 2:
-            f.write("version = 2\n")
+        if style != 'plain':
+            f.write('# model package written by a simulated author\n\n')
+        for k, v in items:
+            f.write(fm % (k, v))
 
 
 def prelude_spec(spec, rng):
